@@ -2,6 +2,7 @@ import Driver.Util
 import Driver.SemDrv
 import Driver.SSemDrv
 import Driver.SchedDrv
+import Driver.SchedCoDrv
 import Driver.RwDrv
 import Driver.SndDrv
 import Driver.SharedDrv
@@ -9,6 +10,7 @@ import Driver.AffDrv
 import Driver.CVDrv
 import Driver.DequeDrv
 import Driver.BarrierDrv
+import Driver.BarrierTDrv
 import Driver.LatchDrv
 import Driver.OnceDrv
 import Driver.EraseDrv
@@ -24,6 +26,7 @@ import Driver.IqDrv
 import Driver.BulkDrv
 import Driver.StopDrv
 import Driver.StopRefDrv
+import Driver.FifoDrv
 /-! `driver <model>`: reads harness output (cases) on stdin, prints one verdict line per case. -/
 open Driver
 
@@ -32,6 +35,7 @@ def dispatch (model : String) (c : Case) : String :=
   | "sem" => SemDrv.runCase c
   | "ssem" => SSemDrv.runCase c
   | "sched" => SchedDrv.runCase c
+  | "schedco" => SchedCoDrv.runCase c
   | "rw" => RwDrv.runCase c
   | "snd" => SndDrv.runCase c
   | "shared" => SharedDrv.runCase c
@@ -39,6 +43,7 @@ def dispatch (model : String) (c : Case) : String :=
   | "cv" => CVDrv.runCase c
   | "deque" => DequeDrv.runCase c
   | "barrier" => BarrierDrv.runCase c
+  | "barriert" => BarrierTDrv.runCase c
   | "latch" => LatchDrv.runCase c
   | "once" => OnceDrv.runCase c
   | "c09l" => if c.get "kind" == "latch" then LatchDrv.runCase c else OnceDrv.runCase c
@@ -55,6 +60,7 @@ def dispatch (model : String) (c : Case) : String :=
   | "bulk" => BulkDrv.runCase c
   | "stop" => StopDrv.runCase c
   | "stopref" => StopRefDrv.runCase c
+  | "fifo" => FifoDrv.runCase c
   | _ => s!"case {c.id} reject 0 unknown-model-{model}"
 
 def main (args : List String) : IO UInt32 := do
